@@ -42,7 +42,7 @@ template <class S> struct Residual {
     long double nr = 0, nf = 0;      // ||f - A x||_2, ||f||_2
     long double absAx = 0;           // || |A||x| ||_2  (forward error scale of a working-precision residual evaluation)
     long double nx = 0;
-    size_t maxrow = 0; bool finite = true, overflow = false;
+    size_t maxrow = 0; bool finite = true, overflow = false; long double lim = 0;   // lim: largest norm whose square does not overflow the working precision (/4)
 };
 template <class S> Residual<S> residual_ld(const Csr<S> &A, const std::vector<S> &f, const std::vector<S> &x) {
     typedef typename ldtype<S>::type L; Residual<S> R; R.r.resize(A.n);
@@ -59,7 +59,7 @@ template <class S> Residual<S> residual_ld(const Csr<S> &A, const std::vector<S>
     // although long double still holds it; reporting inf / NaN for it is overflow, not mis-reporting.
     typedef typename ldtype<S>::real Rl; (void)sizeof(Rl);
     long double lim = std::sqrt((long double)std::numeric_limits<typename std::conditional<std::is_same<S, float>::value || std::is_same<S, std::complex<float>>::value, float, double>::type>::max()) / 4;
-    R.finite = std::isfinite((double)R.nr); R.overflow = !(R.nr < lim && R.nx < lim);
+    R.lim = lim; R.finite = std::isfinite((double)R.nr); R.overflow = !(R.nr < lim && R.nx < lim);
     return R;
 }
 template <class S> long double norm2_ld(const std::vector<S> &v) { long double s = 0; for (auto &e : v) s += abs2_ld(to_ld(e)); return std::sqrt(s); }
@@ -114,7 +114,7 @@ bool check_truthful(Case &c, const CallSpec &cs, const Csr<S> &A, const std::vec
     Residual<S> R = residual_ld(A, f, x);
     long double tv = R.nr / R.nf; bool tfinite = R.finite;
     if (cs.cfg.left) {
-        if (tfinite) { std::vector<S> z(A.n, S()); applyP(R.r, z); long double nz = norm2_ld(z); tv = nz / R.nf; tfinite = std::isfinite((double)tv); }
+        if (tfinite) { std::vector<S> z(A.n, S()); applyP(R.r, z); long double nz = norm2_ld(z); tv = nz / R.nf; tfinite = std::isfinite((double)tv); if (!(nz < R.lim)) R.overflow = true; }   // the preconditioned residual can overflow on its own
     }
     if (out_true) *out_true = (double)tv;
     if (!std::isfinite(res)) {
